@@ -20,12 +20,15 @@ pub const PKG_NAME: &str = "bita";
 pub const PKG_VERSION: &str = env!("CARGO_PKG_VERSION");
 
 mod buztable;
+mod c01;
 mod c09;
 mod c10;
 mod clonechecks;
 mod clonelab;
 mod codec;
 mod memdev;
+mod sched;
+mod subjects;
 mod universe;
 mod refchunk;
 mod rep;
@@ -46,6 +49,7 @@ fn main() {
     log::set_max_level(log::LevelFilter::Info);
     rep::install_panic_hook();
     match args[1].as_str() {
+        "sched-worker" => subjects::worker_main(&args[2..]),
         "run" => {
             let id = args[2].clone();
             let mut tier = "quick".to_string();
@@ -70,13 +74,16 @@ fn main() {
                 }
             }
             let level = match id.as_str() {
-                "C09" => "model_checking",
+                "C09" | "C01" | "C11" | "C12" => "model_checking",
                 _ => "exploration",
             };
             let mut rep = Report::new(&id, level, &tier, seed);
             match id.as_str() {
                 "C09" => c09::run(&mut rep),
                 "C10" => c10::run(&mut rep),
+                "C01" => c01::c01(&mut rep),
+                "C11" => c01::c11(&mut rep),
+                "C12" => c01::c12(&mut rep),
                 "C02" => clonechecks::c02(&mut rep),
                 "C03" => clonechecks::c03(&mut rep),
                 "C06" => clonechecks::c06(&mut rep),
@@ -95,6 +102,7 @@ fn main() {
             let still = match id.as_str() {
                 "C09" => c09::replay(&detail),
                 "C10" => c10::replay(&detail),
+                "C01" | "C11" | "C12" => c01::replay(&id, &detail),
                 "C02" | "C03" | "C06" | "C13" => clonechecks::replay(&id, &detail),
                 _ => {
                     eprintln!("MACHINERY-ERROR no replay for {id}");
